@@ -315,12 +315,19 @@ def check_wnaf(res, facts):
                 if idx_of(es) not in neg_idx:
                     probs.append("a negative digit n subtracts %s, expected table[(-n) / 2]" % show(es)[:80])
                 # polarity: the add sits on the `n > 0` arm
-                gts = [(bi, b["t"]) for bi, b in enumerate(fn.bbs) if b["t"]["k"] == "switch" and E(fn, b["t"]["o"]) == ("bin", "Gt", digit, 0)]
+                gts = []
+                for bi, b in enumerate(fn.bbs):
+                    if b["t"]["k"] == "switch":
+                        c_ = E(fn, b["t"]["o"])
+                        if isinstance(c_, tuple) and c_[0] == "bin" and c_[1] in ("Gt", "Ge", "Lt", "Le") and c_[2] == digit and c_[3] == 0:
+                            gts.append((bi, b["t"], c_[1]))
                 if len(gts) != 1:
-                    probs.append("no single test `n > 0` selecting between add and subtract")
+                    probs.append("no single sign test of the digit selecting between add and subtract")
                 else:
                     t_ = gts[0][1]
                     false_t, true_t = t_["tgts"][0], t_["else"]
+                    if gts[0][2] in ("Lt", "Le"):
+                        false_t, true_t = true_t, false_t      # `n < 0`: the true arm is the negative one
                     def reach(a_, b_):
                         seen, st_ = {a_}, [a_]
                         succ = fn.succ()
